@@ -10,7 +10,7 @@ from models import ref_mgh
 from sim import simrandom
 from sim.sched import HarnessError, InvalidCase, Violation
 
-FORMATS = ("list", "dense", "csr", "csc", "coo", "bsr", "lil", "dok", "dia")
+FORMATS = ("list", "dense", "csr", "csc", "coo", "bsr", "lil", "dok", "dia", "matrix")
 FILLS = ("upper", "symmetric", "lower", "mixed")      # mixed: every edge stored once, in either triangle (a relabelled upper-triangular adjacency)
 DTYPES = ("int", "int", "bool", "int8", "uint8")
 MSO_CHOICES = ([0.5, 1.0], [0.5, 1.0], [0.0, 0.0], [1.0, 1.0], [1.5, 0.0], [0.0, 2.0], [-1.0, 0.5])
@@ -87,7 +87,22 @@ def gen_graph(rng, max_n):
     return {"n": n, "edges": gen_connected(rng, n, kind)}
 
 
+K33 = {"n": 6, "edges": [[i, j] for i in range(3) for j in range(3, 6)]}
+PRISM = {"n": 6, "edges": [[0, 1], [1, 2], [0, 2], [3, 4], [4, 5], [3, 5], [0, 3], [1, 4], [2, 5]]}
+CUBE = {"n": 8, "edges": [[a, b] for a in range(8) for b in range(a + 1, 8) if bin(a ^ b).count("1") == 1]}
+# 3-regular, 8 vertices, diameter 3 like the cube but with triangles: two K4 minus an edge, joined
+TWISTED = {"n": 8, "edges": [[0, 1], [0, 2], [1, 2], [1, 3], [2, 3], [4, 5], [4, 6], [5, 6], [5, 7], [6, 7], [0, 4], [3, 7]]}
+
+
 def gen_pair(rng, max_n):
+    if max_n >= 6 and rng.random() < 0.02:
+        # regular graphs with equal distance profiles at every vertex that are not isomorphic (randomly relabelled)
+        import copy as _copy
+        A_, B_ = _copy.deepcopy(rng.choice(((K33, PRISM), (CUBE, TWISTED)) if max_n >= 8 else ((K33, PRISM),)))
+        ea, _ = relabel(rng, A_["n"], A_["edges"])
+        eb, _ = relabel(rng, B_["n"], B_["edges"])
+        G_, H_ = {"n": A_["n"], "edges": ea}, {"n": B_["n"], "edges": eb}
+        return (G_, H_, False) if rng.random() < 0.5 else (H_, G_, False)
     G = gen_graph(rng, max_n)
     r = rng.random()
     iso = False
@@ -167,6 +182,8 @@ def materialize(g, rep):
         return [[(bool(x) if rep["dtype"] == "bool" else int(x)) for x in row] for row in A]
     if f == "dense":
         return A
+    if f == "matrix":
+        return np.asmatrix(A)              # what sparse.todense() returns: an ndarray subclass whose * is a matrix product
     if f in ("bsr", "lil", "dok", "dia"):
         if rep["dtype"] != "int":
             A = A.astype(np.int64)
